@@ -364,7 +364,11 @@ func (clients *clientsContainer) shouldCountClient(ids []string) (y bool) {
 	defer clients.lock.Unlock()
 
 	for _, id := range ids {
-		client, ok := clients.storage.Find(id)
+		// Like the query log, the statistics only get addresses without IPv6
+		// zones, so use the loose search to also find the clients that are
+		// identified by an address with a zone.
+		ip, _ := netip.ParseAddr(id)
+		client, ok := clients.storage.FindLoose(ip, id)
 		if ok {
 			return !client.IgnoreStatistics
 		}
